@@ -6,6 +6,7 @@ A registry for units that can be added to and modified.
 
 import copy
 import json
+import math
 from functools import lru_cache
 from hashlib import md5
 
@@ -162,7 +163,29 @@ class UnitRegistry:
             tex_repr = r"\rm{" + symbol.replace("_", r"\ ") + "}"
 
         # Add to lut
+        self._forget_derived(symbol)
         self.lut[symbol] = (base_value, dimensions, offset, tex_repr, prefixable)
+
+    def _forget_derived(self, symbol):
+        """Forget everything derived from the current definition of `symbol`:
+        memoised Unit objects (compound strings may contain the symbol) and
+        the SI-prefixed table entries that were generated from it.
+        """
+        self._unit_object_cache.clear()
+        old_entry = self.lut.get(symbol)
+        if old_entry is None:
+            return
+        for prefix, (prefix_value, _) in unit_prefixes.items():
+            key = prefix + symbol
+            entry = self.lut.get(key)
+            if entry is None or key in default_unit_symbol_lut:
+                continue
+            if (
+                entry[4] is False
+                and entry[1] == old_entry[1]
+                and math.isclose(entry[0], old_entry[0] * prefix_value)
+            ):
+                del self.lut[key]
 
     def remove(self, symbol):
         """
@@ -183,9 +206,8 @@ class UnitRegistry:
                 "in this registry."
             )
 
+        self._forget_derived(symbol)
         del self.lut[symbol]
-        if symbol in self._unit_object_cache:
-            del self._unit_object_cache[symbol]
 
     def modify(self, symbol, base_value):
         """
@@ -216,9 +238,8 @@ class UnitRegistry:
         else:
             new_dimensions = self.lut[symbol][1]
 
+        self._forget_derived(symbol)
         self.lut[symbol] = (float(base_value), new_dimensions) + self.lut[symbol][2:]
-        if symbol in self._unit_object_cache:
-            del self._unit_object_cache[symbol]
 
     def keys(self):
         """
